@@ -242,35 +242,41 @@ func genNTSDest(c *lib.Ctx, tag string) {
 				}
 				data := ntsData()
 				data.Server, data.Port = nm.server, port
-				sinks.drain()
-				ctx, cancel := context.WithTimeout(context.Background(), 12*time.Millisecond)
-				clk.reset()
-				var done chan callRes
-				switch tr {
-				case ntsTrIP:
-					ipc.Auth.NTSKEFetcher.VerifC11SetData(data)
-					la := &net.UDPAddr{IP: net.IPv4(127, 0, 0, 1).To4()}
-					done = callClient(func() (time.Time, time.Duration, error) { return client.VerifC03MeasureIP(ctx, ipc, la, ipRemote) })
-				default:
-					scc.Auth.NTSKEFetcher.VerifC11SetData(data)
-					la := udp.UDPAddr{IA: localIA, Host: &net.UDPAddr{IP: net.IPv4(127, 0, 0, 1).To4()}}
-					var path snet.Path = spath.Path{Src: localIA, Dst: scRemote.IA, DataplanePath: spath.Empty{},
-						NextHop: net.UDPAddrFromAddrPort(p.addr)}
-					done = callClient(func() (time.Time, time.Duration, error) {
-						return client.VerifC03MeasureSCION(ctx, scc, la, scRemote, path)
-					})
+				// one call of the real client with the data preloaded; what the sinks saw
+				attempt := func(d time.Duration) (res callRes, seen []seenDgram, blocked bool) {
+					sinks.drain()
+					ctx, cancel := context.WithTimeout(context.Background(), d)
+					defer cancel()
+					clk.reset()
+					var done chan callRes
+					switch tr {
+					case ntsTrIP:
+						ipc.Auth.NTSKEFetcher.VerifC11SetData(data)
+						la := &net.UDPAddr{IP: net.IPv4(127, 0, 0, 1).To4()}
+						done = callClient(func() (time.Time, time.Duration, error) { return client.VerifC03MeasureIP(ctx, ipc, la, ipRemote) })
+					default:
+						scc.Auth.NTSKEFetcher.VerifC11SetData(data)
+						la := udp.UDPAddr{IA: localIA, Host: &net.UDPAddr{IP: net.IPv4(127, 0, 0, 1).To4()}}
+						var path snet.Path = spath.Path{Src: localIA, Dst: scRemote.IA, DataplanePath: spath.Empty{},
+							NextHop: net.UDPAddrFromAddrPort(p.addr)}
+						done = callClient(func() (time.Time, time.Duration, error) {
+							return client.VerifC03MeasureSCION(ctx, scc, la, scRemote, path)
+						})
+					}
+					select {
+					case res = <-done:
+					case <-time.After(3 * time.Second):
+						cancel()
+						<-done
+						return res, nil, true
+					}
+					return res, sinks.drain(), false
 				}
-				var res callRes
-				select {
-				case res = <-done:
-				case <-time.After(3 * time.Second):
-					cancel()
+				res, seen, blocked := attempt(12 * time.Millisecond)
+				if blocked {
 					c.Count(tag + ":discarded:blocked")
-					<-done
 					continue
 				}
-				cancel()
-				seen := sinks.drain()
 				// --- what the exchange named, by the harness's own reading (the real net.ParseIP)
 				var want netip.AddrPort
 				parsedTok := "-"
@@ -283,6 +289,25 @@ func genNTSDest(c *lib.Ctx, tag string) {
 				// 127.0.0.1) and be seen — IPv4 loopback with a sink on it; over SCION to another AS
 				// the underlay destination is the path's next hop whatever is named
 				reach := want.IsValid() && (tr == ntsTrSCION || want.Addr().Is4() && want.Addr().IsLoopback() && sinks.has(want))
+				anyCookie := func(ds []seenDgram) bool {
+					for _, d := range ds {
+						if carriesCookie(d.b, data) {
+							return true
+						}
+					}
+					return false
+				}
+				if reach && !anyCookie(seen) && res.panic == "" {
+					// nothing seen where something is expected: under machine load the 12 ms of the
+					// call can pass before the client gets to send — once more with a long deadline
+					// before judging (a client that sends elsewhere or not at all does so again)
+					c.Count(tag + ":retry-with-long-deadline")
+					res, seen, blocked = attempt(200 * time.Millisecond)
+					if blocked {
+						c.Count(tag + ":discarded:blocked")
+						continue
+					}
+				}
 				var sent []string
 				bad := ""
 				for _, d := range seen {
